@@ -848,12 +848,23 @@ def check_C17(tier):
     for cap in (0, 1, 3, 5, 9):
         gens.append(dict(family="bcast", fut=False, cap=cap, depth=6, simulate=(40 if tier == "quick" else 400, 6),
                          ops=["send", "recv", "add_stream", "clone", "drop"]))
-    scns = sc.churn("C17", "bcast", caps=(2,), cycles=8) + sc.churn("C17", "mpmc", caps=(2,), cycles=8)
+    scns = (sc.churn("C17", "bcast", caps=(2,), cycles=8) + sc.churn("C17", "mpmc", caps=(2,), cycles=8) +
+            # list swaps that lose their compare-exchange (the candidate list is thrown away) and concurrent leavers
+            sc.add_vs_remove("C17x", caps=(1, 2)) + sc.two_churners("C17t") +
+            sc.remove_stream("C17r", "bcast", caps=(1,)))
+    for s_ in scns:
+        s_["mm_trace"] = True
     return generic_check("C17", tier, ["C17"], scns, plans_for(tier, dfs_cap_quick=300, rnd_quick=100), RULE_CONC +
                          "; teardown in every order (sequential histories from MQAbsGen, all four families, capacities "
                          "0..9): after the last handle is gone no block allocated through alloc.rs is alive; churn "
                          "histories of 10^4 (quick) / 10^5 (thorough) cycles with live blocks and heap bytes sampled at "
-                         "checkpoints 100, 1000, ...: no growth beyond a plateau, heap back to its level after teardown",
+                         "checkpoints 100, 1000, ...: no growth beyond a plateau, heap back to its level after teardown "
+                         "(also with every receiver gone and only senders churning); in every scheduled run the harness's "
+                         "allocator attributes each block allocated inside a call of the crate to the crate, and after "
+                         "teardown exactly 0 such bytes may be alive (crate_heap in the end event), which covers what the "
+                         "allocation hooks of alloc.rs do not see (Vec buffers of stream lists, parked-task lists); "
+                         "the memory-manager ops of every run are validated against MQMemImpl (a batch that is never "
+                         "released shows as NoLostBatch / a never-ending pending epoch there)",
                          gens=gens, models=[churn_stage])
 
 
